@@ -17,6 +17,12 @@ CHECKS['C05'] = dict(text='Every byte string (all 256 values per position) up to
 CHECKS['C04'] = dict(text='The driver builds a symbolic dependency AST (shapes enumerated exhaustively up to the stated bound, leaves symbolic over the Policy alphabets), renders it with its own renderer in several whitespace layouts (including symbolic space/tab/newline bytes), and the real Parse and UnmarshalControl (go/ssa, path enumeration decided by byte domains and z3) must return exactly that AST, compared through a canonical dump that does not use String(). Each malformed class of the statement, as a template with symbolic leaves, must give an error and a nil result.',
              note='Trusted: go/ssa, the interpreter and its models, z3; the independent renderer and the canonical dump in the harness are the oracle. Whitespace slots follow Policy 7.1 and the spacing dpkg/Dpkg::Deps accept; a name directly followed by [ or < is not demanded.',
              ref='DESIGN.md 2/C04')
+CHECKS['C02'] = dict(text='For every triple of versions (any 64-bit epochs, components up to the stated lengths over the version alphabet) the real Compare, symbolically executed from go/ssa with merged states, is shown by z3 to be reflexive, antisymmetric, transitive and congruent; and the real sort.Sort (insertion-sort path of pdqsort, from its own SSA) with the real Slice.Len/Less/Swap on slices of symbolic versions is shown to end within the unwinding bound with a non-decreasing permutation.',
+             note='Trusted: go/ssa, the interpreter, z3; pdqsort beyond 12 elements is outside the claim (its contract needs exactly the laws shown).',
+             ref='DESIGN.md 2/C02')
+CHECKS['C06'] = dict(text='Arch.Is / ArchSet.Matches on architectures whose components are symbolic names (exhaustive up to renaming), GetPossibilities/GetAllPossibilities/GetSubstvars on dependencies with symbolic flags, and SatisfiedBy on symbolic (op, N, V) are executed symbolically from go/ssa; on every path z3 shows agreement with the statement written as a reference in the harness (field-wise any-or-equal, list admission, first admitted non-substvar alternative, operator table over the reference order).',
+             note='Trusted: go/ssa, the interpreter and its models, z3. The reference order is the harness specCompare (validated against the SMT formulation in C01).',
+             ref='DESIGN.md 2/C06')
 NA = {}
 props = [json.loads(l) for l in open(os.path.join(V, 'properties.jsonl'))]
 checks = []
